@@ -378,8 +378,8 @@ func c15Ctx(c *core.Ctx) {
 
 func init() {
 	register(&Property{
-		ID:    "C15",
-		Level: "other",
+		ID:          "C15",
+		Level:       "other",
 		Explanation: "Decides the structural necessary conditions of 'the oracle injects only finalized, current, not-yet-present roots': C15-gate — the only InjectGER call through the ChainSender interface is in processLatestGER, reachable only after IsGERInjected of the same value returned (false, nil), and that value is the root returned by a successful getLastFinalizedGER; C15-prov — that root is GetLatestInfoUntilBlock(ctx, n).GlobalExitRoot of a successful query, n is the number of the header sampled with the configured finality (HeaderByNumber(ctx, a.blockFinality), success edge) or the non-zero retry target, blockFinality is written only in New from ToBlockNum(), and the retry target is written only with getLastFinalizedGER's first result; C15-resample — the success path returns target 0 so the next tick samples finality again (keeps up with newer finalized roots), while the syncer-behind path returns the sampled block. the retry target is stored only on the success edge of the lookup or for ErrBlockNotProcessed, so it cannot stick on ErrNotFound / other errors; C15-until — the store's GetLatestInfoUntilBlock(n) selects the last leaf in chain order with block_num <= $1 bound to n, only after the last processed block reached n, and the façade passes n through. Not decided: liveness under arbitrary relative speeds. C15-gate also requires that no goroutine started in the oracle package reaches InjectGER (one step at a time). Added after round 7: C15-ctx (tick and injection wait under the oracle's own context), C15-finality (shared with C06-finality), C15-bootstrap (shared with C05-bootstrap).",
 		Rules: []Rule{
 			{ID: "C15-gate", Floor: 3, Run: func(c *core.Ctx) { c15Gate(c); c15SingleFlight(c) }, Text: "[DOM]+[WHO] inject only after IsGERInjected(g) == (false, nil); g from a successful lookup"},
